@@ -52,6 +52,20 @@ def distance2 (a b : V3 α) : α := V3.norm2 (a - b)
 def normalize [Scalar α] (a : V3 α) : V3 α := V3.smul ((N α 1) / length a) a
 end V3
 
+namespace V3
+/-- glam `DVec3 / f64` -/
+def divs (a : V3 α) (k : α) : V3 α := ⟨a.x / k, a.y / k, a.z / k⟩
+end V3
+
+namespace V4
+/-- glam `DVec4 * DVec4` (componentwise) -/
+def mul (a b : V4 α) : V4 α := ⟨a.x * b.x, a.y * b.y, a.z * b.z, a.w * b.w⟩
+/-- glam `DVec4 + DVec4` -/
+def add (a b : V4 α) : V4 α := ⟨a.x + b.x, a.y + b.y, a.z + b.z, a.w + b.w⟩
+/-- glam `DVec4::ONE` -/
+def ones : V4 α := ⟨N α 1, N α 1, N α 1, N α 1⟩
+end V4
+
 /-- glam `DMat3::from_cols(a,b,c).determinant()` = `c · (a × b)` -/
 def det3cols (a b c : V3 α) : α := V3.dot c (V3.cross a b)
 
